@@ -245,12 +245,18 @@ class _FloatSub(float):
 
 def slot_obj(v):
     """recipe value -> the child object handed to the library"""
+    if isinstance(v, dict) and "strsub" in v:
+        from hv.build import StrSub
+
+        return StrSub(v["strsub"])
     if isinstance(v, dict):
         return (_IntSub if v["numsub"] == "int" else _FloatSub)(v["v"], v["text"])
     return v
 
 
 def slot_text(v) -> str:
+    if isinstance(v, dict) and "strsub" in v:
+        return v["strsub"]
     if isinstance(v, dict):
         return v["text"]
     return v if isinstance(v, str) else str(v)
@@ -258,7 +264,8 @@ def slot_text(v) -> str:
 
 def slot_values():
     numsub = st.builds(lambda t, v, s: {"numsub": t, "v": v if t == "int" else float(v), "text": s}, st.sampled_from(["int", "float"]), st.integers(-5, 5), gen.any_text())
-    return st.one_of(gen.any_text(), gen.any_text(), gen.any_text(), gen.numbers(), long_text(), numsub)
+    strsub = gen.any_text().map(lambda t: {"strsub": t})  # an instance of a str subclass is a plain string too
+    return st.one_of(gen.any_text(), gen.any_text(), gen.any_text(), gen.numbers(), long_text(), numsub, strsub, gen.edge_ws_text())
 
 
 def tree_strategy():
@@ -266,6 +273,7 @@ def tree_strategy():
         st.sampled_from([n for n in gen.catalogue_names() if n not in ("script", "style")]),
         st.sampled_from(gen.BLOCK_NAMES + gen.INLINE_NAMES),
         st.sampled_from(gen.RAWISH_NAMES),
+        st.sampled_from([n for n in gen.SPECIAL_NAMES if n not in ("script", "style")]),
         gen.CUSTOM_NAME.filter(lambda n: n.lower() not in ("script", "style")),
     )
     slot = st.builds(lambda v: {"k": "slot", "v": v}, slot_values())
@@ -485,10 +493,12 @@ def body_slots(case, note):
     meta_slots = [v for v in slots if META & set(slot_text(v))]
     only_child = len(case["roots"]) == 1 and case["roots"][0]["k"] == "tag" and len(case["roots"][0]["kids"]) == 1
     classes = ["how:" + x for x in sorted(b0.hows)]
-    if any(not isinstance(v, str) for v in slots):
+    if any(not isinstance(v, str) and not (isinstance(v, dict) and "strsub" in v) for v in slots):
         classes.append("number")
-    if any(isinstance(v, dict) and META & set(v["text"]) for v in slots):
+    if any(isinstance(v, dict) and "text" in v and META & set(v["text"]) for v in slots):
         classes.append("number-subclass-with-metachar-text")
+    if any(isinstance(v, dict) and "strsub" in v and META & set(v["strsub"]) for v in slots):
+        classes.append("str-subclass-with-metachar")
     if any(isinstance(v, str) and len(v) >= 64 for v in slots):
         classes.append("long-text")
     if prior in ("trusted", "both"):
@@ -522,7 +532,7 @@ CLAUSES = [
         quick=1200,
         thorough=20000,
         shards_quick=4,
-        required=("how:append", "how:extend", "how:insert", "how:list", "how:tfy", "how:ctor", "number", "long-text", "prior-trusted-render", "prior-failed-render", "number-subclass-with-metachar-text", "how:renamed"),
+        required=("how:append", "how:extend", "how:insert", "how:list", "how:tfy", "how:ctor", "number", "long-text", "prior-trusted-render", "prior-failed-render", "number-subclass-with-metachar-text", "str-subclass-with-metachar", "how:renamed"),
         rule="metachar slot not an only child",
         fuzz=60000,
     ),
